@@ -211,7 +211,7 @@ var verifFloatTable = []struct {
 func verifGenScalar(tag string, kind int, full bool) verifScalar {
 	switch kind {
 	case 0:
-		s := verifSymStr(tag+".str", verifPick(tag+".strlen", 3))
+		s := verifSymStr(tag+".str", verifPick(tag+".strlen", 2))
 		return verifScalar{s, s, true, s, true}
 	case 1:
 		i := 0
@@ -258,12 +258,19 @@ func verifSeq(tuple bool, elems ...interface{}) interface{} {
 func verifGenItem(tag string, full bool) (item interface{}, valid bool, line string) {
 	class := verifPick(tag+".class", 7)
 	switch class {
-	case 0: // (name, (ts, val)) with every combination of tuple/list and scalar types
-		name := verifSymStr(tag+".name", verifPick(tag+".namelen", 3))
-		ts := verifGenScalar(tag+".ts", verifPick(tag+".tskind", verifScalarKinds), full)
-		val := verifGenScalar(tag+".val", verifPick(tag+".valkind", verifScalarKinds), full)
-		outerTuple := verifPick(tag+".outer", 2) == 0
-		innerTuple := verifPick(tag+".inner", 2) == 0
+	case 0: // (name, (ts, val)): every pair of scalar types as tuples, every tuple/list combination for one pair
+		name := verifSymStr(tag+".name", 1+verifPick(tag+".namelen", 2))
+		var ts, val verifScalar
+		outerTuple, innerTuple := true, true
+		if verifPick(tag+".vary", 2) == 0 {
+			ts = verifGenScalar(tag+".ts", verifPick(tag+".tskind", verifScalarKinds), full)
+			val = verifGenScalar(tag+".val", verifPick(tag+".valkind", verifScalarKinds), full)
+		} else {
+			ts = verifGenScalar(tag+".ts", 1, false)
+			val = verifGenScalar(tag+".val", 2, false)
+			outerTuple = verifPick(tag+".outer", 2) == 0
+			innerTuple = verifPick(tag+".inner", 2) == 0
+		}
 		item = verifSeq(outerTuple, name, verifSeq(innerTuple, ts.v, val.v))
 		if ts.tsOK && val.valOK {
 			return item, true, name + " " + val.val + " " + ts.ts
@@ -526,9 +533,19 @@ func VerifC13Framing() {
 		r = &verifSegReader{data: stream, zerosLeft: verifDigit("zeros", 0), endErr: endErr}
 	} else {
 		n := len(stream)
-		c1 := verifChoice("cut1", n+1)
-		c2 := c1 + verifChoice("cut2", n+1-c1)
-		r = &verifCutReader{data: stream, cuts: []int{c1, c2}, endErr: endErr, errWithEnd: verifChoice("err-with-last-bytes", 2) == 1}
+		var cuts []int
+		switch verifParam("reader") {
+		case "bytewise": // every Read returns one byte
+			for i := 1; i < n; i++ {
+				cuts = append(cuts, i)
+			}
+		case "cut1":
+			cuts = []int{verifChoice("cut1", n+1)}
+		default:
+			c1 := verifChoice("cut1", n+1)
+			cuts = []int{c1, c1 + verifChoice("cut2", n+1-c1)}
+		}
+		r = &verifCutReader{data: stream, cuts: cuts, endErr: endErr, errWithEnd: verifChoice("err-with-last-bytes", 2) == 1}
 	}
 	d := &verifCapDisp{}
 	err := verifRunPickle(r, d)
